@@ -116,8 +116,8 @@ theorem stepInstr_carry (cfg : Cfg) (harg : cfg.arg = .first) (sh : Shared) (poo
       ∨ MainPanic sh pooled i (stepInstr cfg sh pooled i rest)) := by
   cases i <;> simp only [stepInstr, MainPanic] <;> (repeat' split) <;>
     simp_all [Instr.trackT, Instr.owed]
-  all_goals (try (cases pooled <;> simp_all [Instr.trackT]))
-  all_goals (try (rename_i e; cases e <;> simp_all [Instr.trackT]))
+  all_goals (try (cases pooled <;> simp_all))
+  all_goals (try (rename_i e; cases e <;> simp_all))
   all_goals (try (first | omega | (right; omega) | (right; left; omega) | (right; right; left; omega)))
 
 theorem ECok.congr {sh sh' : Shared} {j : Instr} (hp : sh'.pending = sh.pending) (hf : sh'.failed = sh.failed)
